@@ -144,7 +144,7 @@ Definition canon_refresh_log (l : list paction) : list Z :=
 Definition canon_set_log (l : list paction) : list Z := sortz (map pcode l).
 
 Definition rres_code (r : rres) : Z :=
-  match r with ROk => 0 | RErrCannotFind => 1 | RErrExists => 2 | RPanic => 3 end.
+  match r with ROk => 0 | RErrCannotFind => 1 | RErrExists => 2 | RPanic => 3 | RErrReport => 4 end.
 
 Definition clear_log (s : sess) : sess := mkSess (s_ring s) (s_pool s) [] (s_refresh s).
 Definition clear_refresh (s : sess) : sess := refresh_started s.
